@@ -500,6 +500,16 @@ class SSHSession(Session):
         raise AuthenticationError("No authentication methods available")
 
     def _transport_read(self):
+        if self._channel.recv_stderr_ready():
+            # the channel's descriptor also becomes readable for what the
+            # subsystem writes to stderr: that is not part of the NETCONF
+            # stream, and left unread it keeps the descriptor readable while
+            # recv() below blocks and nothing is sent any more
+            self.logger.warning("Ignoring stderr output of the subsystem: %r",
+                                self._channel.recv_stderr(BUF_SIZE))
+            if not (self._channel.recv_ready() or self._channel.closed
+                    or self._channel.eof_received):
+                return None # that was all there was to read
         return self._channel.recv(BUF_SIZE)
 
     def _transport_write(self, data):
